@@ -58,7 +58,7 @@ def run(ck):
         p = os.path.join(ck.bdir, 'AttrFlow_gen.v')
         open(p, 'w').write(txt)
         rc, out, dt = coqc(p)
-        ck.checker_cmds.append('coqc build/C11/AttrFlow_gen.v')
+        ck.checker_cmds.append('coqc build/C11/run_<pid>/AttrFlow_gen.v')
         inv = {v: k for k, v in ids.items()}
         if rc != 0:
             ck.obligation('AttrFlow_gen.v compiles', 'translation', False, out)
